@@ -114,3 +114,19 @@ Theorem C12_decode_errors_unchanged : forall sof st s k e st' s' k', answers s -
 Proof. exact slip_decode_op_errors. Qed.
 Print Assumptions C12_decode_errors_unchanged.
 
+
+(* the call under driver faults REFINES the structural decoder: run on exactly the octets the call consumed, the structural decoder
+   gives the call's verdict, output and next state - a frame; an invalid escape; or a stop in mid-frame (driver error) with at most the
+   octet in flight not delivered.  For sources that answer every call with an octet or an error and never report EILSEQ themselves,
+   and sinks that take the octet or fail. *)
+Theorem C12_decode_refines : forall sof st s k rc st' s' k', answers s -> no_ilseq s -> sink_answers k ->
+  slip_decode_op sof st s k = Some (rc, st', s', k') ->
+  exists consumed, s_stream s = consumed ++ s_stream s' /\
+    match rc with
+    | DFrame => pdecode sof st consumed (k_got k) = (PFrame, k_got k', [], st')
+    | DFail e =>
+        (e = EILSEQ /\ pdecode sof st consumed (k_got k) = (PIlseq, k_got k', [], st')) \/
+        (exists out, pdecode sof st consumed (k_got k) = (PNoData, out, [], st') /\ (out = k_got k' \/ exists x, out = k_got k' ++ [x]))
+    end.
+Proof. exact slip_decode_op_refines. Qed.
+Print Assumptions C12_decode_refines.
